@@ -99,6 +99,10 @@ def single_edits(base, new_letters='abc'):
                     add('keep-branch', _replace(base, path, lambda n, i=i: (n[0], n[1], n[2], (n[3][i],))))
                     if path:
                         add('branch-inline', _replace(base, path, lambda n, i=i: n[3][i]))
+                        # the branch takes the place of the choice AND gets another occurrence range
+                        if M.is_leaf(kids[i]):
+                            for mn, mx in O8:
+                                add('branch-inline+occurs', _replace(base, path, lambda n, i=i, mn=mn, mx=mx: _with_occ(n[3][i], mn, mx)))
             # 6b. unwrap a single-child group with default occurrence
             if path and len(kids) == 1 and (node[1], node[2]) == (1, 1):
                 add('unwrap', _replace(base, path, lambda n: n[3][0]))
